@@ -171,6 +171,17 @@ reg(
     "DESIGN.md 5/C09",
 )
 
+reg(
+    "C14",
+    "explicit-state exploration of the pool AL loop: state = (labeling, real strategy object carried across cycles), transition = real query on a deep copy under a tie/choice tape + every oracle answer, all labelings as initial states, merged on (labeling, strategy fingerprint)",
+    "The whole reachable state graph of the query/reveal loop is explored for every strategy variant, pool and batch size; the "
+    "per-transition invariant (exactly min(batch_size, u) distinct, still unlabeled samples) holds in every reachable state, which "
+    "implies that no sample is queried twice and that exhaustion takes exactly ceil(u/batch_size) queries on every run (also "
+    "measured on every explored path); strategy-side caches are exercised across cycles because the strategy object is part of the state.",
+    POOL_NOTE,
+    "DESIGN.md 5/C14",
+)
+
 
 def main():
     props = [json.loads(l) for l in open(os.path.join(HOME, "properties.jsonl"))]
